@@ -12,7 +12,8 @@ CONSTANTS MaxMw, MaxCmds
 VARIABLES hist
 mcvars == <<vars, hist>>
 
-MwLists == UNION {[1..n -> {"ok", "fail"}] : n \in 0..MaxMw}
+\* "failnil": the failing handler returns no context along with its error
+MwLists == UNION {[1..n -> {"ok", "fail", "failnil"}] : n \in 0..MaxMw}
 Cfgs == {[auth |-> a, tls |-> "nil", params |-> <<>>, version |-> "", mw |-> m, term |-> t, limit |-> 8192] :
             a \in {"none", "clear"}, m \in MwLists, t \in {"none", "ok"}}
 
@@ -73,7 +74,7 @@ MiddlewareOrder ==
 
 \* a failing middleware ends the connection before any command is served
 FailingMiddlewareEndsIt ==
-    (\E i \in DOMAIN cfg.mw : cfg.mw[i] = "fail") => phase # "ready"
+    (\E i \in DOMAIN cfg.mw : cfg.mw[i] # "ok") => phase # "ready"
 
 \* every parser / statement callback sees the context built by all middlewares
 ContextReachesCallbacks ==
